@@ -451,6 +451,17 @@ class _ExprCanon(ast.NodeTransformer):
                 and len(node.args) == 2 and not node.keywords and not any(isinstance(a, ast.Starred) for a in node.args):
             op = {"mul": ast.Mult, "multiply": ast.Mult, "add": ast.Add, "sub": ast.Sub, "subtract": ast.Sub}.get(f.attr, ast.Div)()
             return ast.copy_location(ast.BinOp(left=node.args[0], op=op, right=node.args[1]), node)
+        if (fn == "torch.diff" and len(node.args) == 1 and isinstance(node.args[0], (ast.Name, ast.Attribute))) or \
+                (isinstance(f, ast.Attribute) and f.attr == "diff" and not node.args and isinstance(f.value, ast.Name) and f.value.id not in ("torch", "np", "numpy")):
+            # first difference along the last axis: x[..., 1:] - x[..., :-1]
+            kws = {k.arg: k.value for k in node.keywords}
+            dim_ok = set(kws) <= {"dim"} and ("dim" not in kws or (isinstance(kws["dim"], ast.UnaryOp) and ast.unparse(kws["dim"]) == "-1"))
+            if dim_ok:
+                import copy as _copy
+                x_ = node.args[0] if fn == "torch.diff" else f.value
+                hi = ast.Subscript(value=_copy.deepcopy(x_), slice=ast.Tuple(elts=[ast.Constant(value=Ellipsis), ast.Slice(lower=ast.Constant(value=1), upper=None, step=None)], ctx=ast.Load()), ctx=ast.Load())
+                lo = ast.Subscript(value=_copy.deepcopy(x_), slice=ast.Tuple(elts=[ast.Constant(value=Ellipsis), ast.Slice(lower=None, upper=ast.UnaryOp(op=ast.USub(), operand=ast.Constant(value=1)), step=None)], ctx=ast.Load()), ctx=ast.Load())
+                return ast.copy_location(ast.BinOp(left=hi, op=ast.Sub(), right=lo), node)
         if fn == "torch.flatten" and len(node.args) == 1 and not node.keywords:
             return ast.copy_location(_mcall(node.args[0], "reshape", ast.UnaryOp(op=ast.USub(), operand=ast.Constant(1))), node)
         if fn in ("torch.autograd.grad", "autograd.grad") and node.args:
